@@ -4,6 +4,7 @@ import (
 	"bytes"
 	"encoding/json"
 	"fmt"
+	redispb "github.com/samaritan-proxy/samaritan/pb/config/protocol/redis"
 	"runtime/debug"
 	"strings"
 	"testing"
@@ -35,7 +36,10 @@ func (s hstep) bytes() []byte {
 }
 
 type hostCase struct {
-	Steps []hstep `json:"steps"`
+	// 0: no compression option; 1: option present but disabled; 2: enabled. With an option present the reply path of the
+	// compression filter (header test, decompression) runs on the backend reader for most commands.
+	Compression int     `json:"compression,omitempty"`
+	Steps       []hstep `json:"steps"`
 }
 
 func checkHostile(c hostCase) *verdict {
@@ -47,7 +51,11 @@ func checkHostile(c hostCase) *verdict {
 	}
 	defer w.Close()
 	w.AssignEven(w.Masters())
-	px, err := sim.StartProxy(sim.ProxyOpts{Seeds: w.AllAddrs(), ConnectTimeout: 100 * time.Millisecond})
+	opts := sim.ProxyOpts{Seeds: w.AllAddrs(), ConnectTimeout: 100 * time.Millisecond}
+	if c.Compression > 0 {
+		opts.Compression = &redispb.Compression{Enable: c.Compression == 2, Algorithm: redispb.Compression_SNAPPY, Threshold: 16}
+	}
+	px, err := sim.StartProxy(opts)
 	if err != nil {
 		return &verdict{"proxy-start", err.Error()}
 	}
@@ -155,7 +163,10 @@ func checkHostile(c hostCase) *verdict {
 
 func genHostileBytes(t *rapid.T, forBackend bool) hstep {
 	var s hstep
-	switch rapid.IntRange(0, 9).Draw(t, "hcls") {
+	switch rapid.IntRange(0, 10).Draw(t, "hcls") {
+	case 10:
+		// a value that looks like (part of) a compressed one
+		s.Raw = ref.Enc(ref.BulkV(genHeaderish(t)))
 	case 0:
 		depth := rapid.SampledFrom([]int{200, 5000, 100000, 300000}).Draw(t, "depth")
 		if vh.Thorough() && rapid.IntRange(0, 3).Draw(t, "deeper") == 0 {
@@ -194,6 +205,7 @@ func genHostileBytes(t *rapid.T, forBackend bool) hstep {
 func TestHostileSockets(t *testing.T) {
 	rapid.Check(t, func(t *rapid.T) {
 		var c hostCase
+		c.Compression = rapid.SampledFrom([]int{0, 0, 1, 2}).Draw(t, "compression")
 		for i, n := 0, rapid.IntRange(1, 5).Draw(t, "steps"); i < n; i++ {
 			if rapid.IntRange(0, 2).Draw(t, "who") == 0 {
 				s := genHostileBytes(t, false)
